@@ -13,10 +13,10 @@ Extraction "model.ml"
   convert write_value isZero isOne isMOne areEqual
   Bk arazi_qi arazi_qi_64 inv_mod reduction rm_add rm_sub rm_subin rm_neg
   mga_init_module mga_to_mg mga_reduction mga_get_ruint mga_of_ruint mga_of_unsigned mga_of_signed mga_of_rint mga_of_mgi
-  mga_mul mga_square mga_mul_T mga_add mga_sub mga_subin mga_neg mga_add_T mga_sub_T mga_T_sub mga_inv mga_inv_T mga_div
+  mga_mul mga_square mga_mul_T mga_add mga_sub mga_subin mga_neg mga_add_T mga_sub_T mga_T_sub mga_inv mga_inv_T mga_inv_Ti mga_mul_Ti mga_div
   mga_addmul mga_exp_u mga_exp_ru mga_eq mga_eq_ruint
   mgi_of_ruint mgi_of_signed mgi_of_rint mgi_get_ruint mgi_mul mgi_add mgi_sub mgi_subin mgi_neg mgi_add_T mgi_sub_T mgi_T_sub
-  mgi_inv mgi_div mgi_addmul mgi_exp mgi_of_mga
+  mgi_inv mgi_inv_T mgi_inv_Ti mgi_mul_T mgi_mul_Ti mgi_div mgi_addmul mgi_exp mgi_of_mga
   mr_mk mr_reduc mr_mul mr_to_mg mr_add mr_sub mr_subin mr_neg mr_inv mr_div mr_divin mr_axpy mr_axpyin
   mr_maxpy mr_maxpyin mr_axmy mr_axmyin mr_init mr_convert mr_isUnit
   opt_z opt_b b2z.
